@@ -71,13 +71,18 @@ fn programs() -> Vec<Program> {
     v.push(mk("shutdown || put(b) || delete(a)", 1, vec![put(1, 2)], vec![vec![Op::Shutdown], vec![put(2, 2)], vec![del(1)]]));
     v.push(mk("shutdown;shutdown || put(b);put(c)", 1, vec![put(1, 2)], vec![vec![Op::Shutdown, Op::Shutdown], vec![put(2, 2), put(3, 2)]]));
     v.push(mk("shutdown || multi_get([a,b]);get_ref(a)", 2, vec![put(1, 2), put(2, 2)], vec![vec![Op::Shutdown], vec![Op::MultiRead { keys: vec![1, 2], variant: ReadVariant::MultiGetIterator }, Op::Read { k: 1, variant: ReadVariant::GetRef }]]));
+    {
+        let mut p = mk("shutdown || put(b);upsert(a);delete(a) || put(c);get(a) (queue 1)", 1, vec![put(1, 2)], vec![vec![Op::Shutdown], vec![put(2, 2), ups(1), del(1)], vec![put(3, 2), get(1)]]);
+        p.thorough_only = true;
+        v.push(p);
+    }
     v
 }
 
 pub fn def(ctx: &Ctx) -> PropertyDef {
     let quick = ctx.quick();
     let workers = ctx.workers;
-    let scenarios: Vec<Scenario> = programs()
+    let scenarios: Vec<Scenario> = for_tier(programs(), quick)
         .into_iter()
         .map(|p| {
             let n = p.threads.len();
